@@ -83,9 +83,11 @@ def generate(repo, scope):
             blk = _blocks(fn0)[bi][2]
             for si, st in enumerate(blk):
                 ops = []
+                if isinstance(st, ast.Expr) and isinstance(st.value, ast.Constant):
+                    continue          # docstring
                 if isinstance(st, SIMPLE):
                     ops.append("DEL")
-                    if si + 1 < len(blk) and isinstance(blk[si + 1], SIMPLE):
+                    if si + 1 < len(blk) and isinstance(blk[si + 1], SIMPLE) and not (isinstance(blk[si + 1], ast.Expr) and isinstance(blk[si + 1].value, ast.Constant)):
                         ops.append("SWAP")
                 if isinstance(st, ast.Try) and st.finalbody:
                     ops.append("UNFINALLY")
